@@ -1,6 +1,7 @@
 package zonemodel
 
 import (
+	"errors"
 	"fmt"
 	"math"
 	"path"
@@ -30,6 +31,7 @@ type GenOpts struct {
 	KeywordLike      func(token string) bool
 	NoNegativeOffset bool // $GENERATE modifiers only with offsets >= 0
 	UncertainTTL     bool // records may omit the TTL right after $INCLUDE / $GENERATE (several acceptable values)
+	MissingTTLError  bool // now and then the top-level file ends in a record that omits its TTL with no TTL source at all (expected: error)
 	MissingTTLShape  bool // ... but only in the line shape "owner type" when the file has no TTL source
 	FixedOptions     bool // parser options as NewRR documents them: origin ".", default TTL 3600
 	OnlyGenerate     bool // mostly $GENERATE items (plus $ORIGIN / $TTL and a few records)
@@ -519,6 +521,21 @@ func (g *zgen) items(st State, depth, max int, cur string) []Item {
 			it = g.include(&st, depth, cur)
 		default:
 			it = g.record(&st)
+		}
+		if g.o.MissingTTLError && depth == 0 && it.Kind == KRec && it.HasTTL && g.n(12, "nottl") == 11 {
+			if _, avail := st.Inherit(); !avail && st.TTLAsserted() {
+				// no $TTL, no stated TTL, no configured default: a record that omits its TTL
+				// cannot be completed; the parse must stop here with an error. Line shape
+				// "owner type" (see MissingTTLShape).
+				it.HasTTL, it.HasClass = false, false
+				if it.Owner.Kind == Prev {
+					it.Owner = AbsName(g.absName(st.Origin))
+				}
+				if _, err := st.Record(&it, nil); errors.Is(err, errMissingTTL) {
+					return append(out, it)
+				}
+				continue
+			}
 		}
 		// advance the state exactly as the interpreter does; an item that is not valid here
 		// (e.g. a completed name exceeds 255 octets) is dropped
